@@ -48,6 +48,10 @@ Definition run_mbi_core (p : profile) (m : mem) : res dref * list string :=
 Definition run_mbinull (p : profile) : list string :=
   [ line "load" (sRes (fun _ : dref => "") (mbi_load p true {| m_base := 0; m_bytes := [] |})) ].
 
+(* mbimis <addr mod 8> <bytes>: load through a pointer that need not be 8-aligned *)
+Definition run_mbimis (p : profile) (a : N) (bs : list byte) : list string :=
+  [ line "load" (sRes (fun _ : dref => "") (mbi_load p false {| m_base := a; m_bytes := bs |})) ].
+
 (* iterator histories: a pool of iterators over the same loaded region;
    op = AL [AN 0] new | AL [AN 1; AN i] next on i | AL [AN 2; AN i] clone of i *)
 Inductive iter_st := ItLive (nxt : N) | ItDead.   (* dead: a call on it panicked *)
